@@ -136,6 +136,8 @@ def _case(draw):
         else:
             c["a"] = {"t": "frac", "n": inner, "d": draw(_contract_arg())}
         c["raw"] = True
+    if draw(st.integers(0, 3)) == 0:
+        c["names"] = list(draw(st.permutations(LONG_NAMES)))[: len(DEFAULT_NAMES)]
     return c
 
 
@@ -157,20 +159,25 @@ def _vec(ev, e, names, card):
     return out
 
 
-def _present(names, k):
+LONG_NAMES = ["X1", "Y1", "Z1", "W2", "AB", "Zz", "B10", "β1", "x_y"]
+
+
+def _present(names, k, universe=DEFAULT_NAMES):
     """A VariableHint for the named variables, the ways a caller may write one: variables, names, value-marked or
     subscripted versions of the variables (only the base variable counts), a bare singleton."""
     from y0.dsl import Variable
 
-    k = k % 6
+    k = k % 7
     if k == 0 or not names:
         return [Variable(n) for n in names]
+    if k == 6:
+        return names[0] if len(names) == 1 else tuple(names)  # a bare name is a VariableHint too
     if k == 1:
         return list(names)
     if k == 2:
         return [-Variable(n) for n in names]
     if k == 3:
-        other = next((x for x in DEFAULT_NAMES if x not in names), None)
+        other = next((x for x in universe if x not in names), None)
         return [Variable(n) @ -Variable(other) if other else Variable(n) for n in names]
     if k == 4:
         return tuple([+Variable(names[0])] + [Variable(n) for n in names[1:]])
@@ -188,6 +195,11 @@ def check(case, ignore_regions=False) -> Outcome:
     labels = {"op:" + op}
     build = exprgen.build_raw if case.get("raw") else exprgen.build_public
     names = list(DEFAULT_NAMES)
+    if case.get("names"):
+        # the same case over names of several characters (a bare string argument is ONE name, not a sequence of letters)
+        names = list(case["names"])
+        case = {**exprgen.rename_spec({k: v for k, v in case.items() if k != "names"}, dict(zip(DEFAULT_NAMES, names)), {}), "names": names}
+        labels.add("names-of-several-characters")
     # arguments with multi-world terms are read in a functional model with shared noise; there, assignments at which the
     # result is undefined (structural zeros of counterfactual events) are skipped like those where the argument is
     worlds = has_worlds(case)
@@ -259,7 +271,7 @@ def check(case, ignore_regions=False) -> Outcome:
             out.nontrivial = not (type(a) is Probability and type(b) is Probability)
         elif op == "marginalize":
             rs = case["rs"]
-            r = a.marginalize(_present(rs, case["mseed"]))
+            r = a.marginalize(_present(rs, case["mseed"], names))
             bad = compare(r, lambda env: sum_over(a, rs, env), "marginal-differs")
             out.nontrivial = True
         elif op == "conditional":
@@ -270,7 +282,7 @@ def check(case, ignore_regions=False) -> Outcome:
             else:
                 outcome_names = exprgen.spec_names(spec)
             comp = sorted(outcome_names - set(rs))
-            r = a.conditional(_present(rs, case["mseed"] // 7))
+            r = a.conditional(_present(rs, case["mseed"] // 7, names))
 
             def want(env):
                 d = sum_over(a, comp, env)
